@@ -156,6 +156,10 @@ def block(r, nmax=6, allow_empty=True):
     if ds and r.random() < 0.3:
         # duplicate a name with another spelling / priority
         ds.append(r.choice(['color: blue', 'COLOR: green !important', 'c\\olor: #aabbcc', 'margin: 0', 'color: red']))
+    if ds and r.random() < 0.12:
+        # the same name declared !important more than once
+        ds += ['color: red !important', r.choice(['color: blue !important', 'COLOR: blue !important', 'margin: 1px']),
+               r.choice(['color: green', 'c\\olor: green !important'])][:r.choice([2, 3])]
     sep = r.choice([';', '; ', ';\n', ' ; '])
     body = sep.join(ds)
     if ds and r.random() < 0.4:
